@@ -28,6 +28,12 @@ func dispatch(cmd string, args []string) int {
 		return cmdCrashChild(args)
 	case "C04", "C15":
 		return cmdConc(cmd, args)
+	case "C12", "C13":
+		return cmdDkg(cmd, args)
+	case "C14":
+		return cmdClusterDuties(args)
+	case "C16", "C17":
+		return cmdSessions(cmd, args)
 	default:
 		fmt.Println("unknown command", cmd)
 		return 2
